@@ -6,6 +6,7 @@ CONSTANTS
   MaxCalls = 1
   MaxRead = 3
   Greedy = TRUE
+  CreditFirst = TRUE
   RecvPolicy = "impl"
 INVARIANTS TypeOK NoSleepWithWindow F1 F1b F2 SenderWithinWindow NoError F3 NoStuck
 CHECK_DEADLOCK FALSE
